@@ -259,7 +259,12 @@ func c20Doc(base, title string) []byte {
 	if base != "" {
 		doc["basePath"] = base
 	}
+	// (indented for titles of odd length: the handlers serve the raw document, white space included)
 	b, err := json.Marshal(doc)
+	if len(title)%2 == 1 {
+		b, err = json.MarshalIndent(doc, "", "  ")
+		b = append(b, '\n')
+	}
 	if err != nil {
 		panic(err)
 	}
@@ -590,7 +595,12 @@ func c20Gen(r *proto.Rng, n int, tier string, emit func(in ...string)) {
 				kf = "-"
 			}
 			d := c20SpecDocPathGuess(base, ks.String(), vals) // only to steer the request path
-			emit("S", proto.B(base), kf, proto.L(vals), proto.B(r.Bytes("{}\"a:1\x00\xff", r.Intn(10))), yes(3, 4),
+			body := r.Bytes("{}\"a:1\x00\xff", r.Intn(10))
+			if r.Chance(1, 3) {
+				// a well-formed document with insignificant white space: served byte for byte, not re-rendered
+				body = r.Pick("{\n  \"swagger\": \"2.0\",\n  \"paths\": {}\n}\n", "{ \"a\" : [ 1 , 2 ] }", " {}\n", "[\n]\n", "{\"a\":1}\n\n")
+			}
+			emit("S", proto.B(base), kf, proto.L(vals), proto.B(body), yes(3, 4),
 				proto.B(r.Pick(c20Methods...)), proto.B(c20Variant(r, d)))
 		case k < 17: // H
 			kind := r.Pick("redoc", "rapidoc", "swaggerui")
